@@ -117,6 +117,20 @@ func (u *urlPathInfo) derives(p *Program, v ssa.Value, seen map[ssa.Value]bool) 
 					}
 				}
 			}
+			// the final group of a match on the path: the remainder, which ends in the slash the path ends in
+			if m, ok := lastElementOf(x); ok {
+				if call, ok := strip(m).(*ssa.Call); ok && strings.HasPrefix(calleeName(&call.Call), "(*regexp.Regexp).FindStringSubmatch") && len(call.Call.Args) > 1 {
+					return u.derives(p, call.Call.Args[1], seen)
+				}
+			}
+			// a string field of a module struct: what is stored into it anywhere
+			if _, fld, ok := fieldLoad(x); ok && fld.Pkg() != nil && fld.Pkg().Path() == modulePath && isStringType(fld.Type()) {
+				for _, st := range p.storesToField(fld) {
+					if u.derives(p, st.Val, seen) {
+						return true
+					}
+				}
+			}
 		}
 	case *ssa.Call:
 		if u.raw && removesTrailingSlash(x) {
@@ -417,6 +431,7 @@ func ruleC14c(c *Ctx) {
 		c.note("-", "no acceptance on a final group", "-", "no regexp-based route acceptance found")
 	}
 	_ = sort.Strings
+	ruleC14cPairs(c)
 }
 
 func ruleC14d(c *Ctx) {
@@ -647,7 +662,10 @@ func ruleC14e(c *Ctx) {
 					c.bad(name, "untrimmed request path used as a map key", p.ipos(x), "looked up as it arrived: `/p/` misses what `/p` finds")
 				}
 			case *ssa.Store:
-				if _, isField := x.Addr.(*ssa.FieldAddr); isField && isRaw(x.Val) {
+				if fa, isField := x.Addr.(*ssa.FieldAddr); isField && isRaw(x.Val) {
+					if fld := fieldOfAddr(fa); fld != nil && fld.Pkg() != nil && fld.Pkg().Path() == modulePath && isStringType(fld.Type()) {
+						return // a string field of a module struct: its readers are followed (the value stays "untrimmed" there)
+					}
 					n++
 					c.bad(name, "untrimmed request path stored in a field", p.ipos(x), "kept as it arrived: what reads the field sees `/p/` and `/p` as different paths")
 				}
@@ -832,5 +850,92 @@ func ruleAffixByPosition(c *Ctx) {
 	}
 	if n == 0 {
 		c.note("-", "no request token is searched for text", "-", "nothing to decide")
+	}
+}
+
+// ---------------------------------------------------------------------------
+// C14.c, second clause: wherever the remainder of a match on the path (the final group) is tested for being empty, the
+// same decision is reached for "/": the test for "" (or length 0) and a test for "/" of the same group lead to the
+// same block. A shortcut "the literal root consumed the whole path" taken for the empty remainder only sends `/p` one
+// way and `/p/` another.
+func ruleC14cPairs(c *Ctx) {
+	p := c.P
+	roles := p.Roles()
+	up := urlPathParams(p, false)
+	for _, fn := range p.SrcFunc {
+		if !p.inModule(fn) || fn.Blocks == nil || !roles.RequestPath[fn] {
+			continue
+		}
+		name := p.fname(fn)
+		type test struct {
+			group ssa.Value // the match the final group belongs to
+			slash bool
+			blk   *ssa.BasicBlock
+			eqTo  *ssa.BasicBlock
+			at    ssa.Instruction
+		}
+		var tests []test
+		groupOf := func(v ssa.Value) (ssa.Value, bool) {
+			v = strip(v)
+			if call, ok := v.(*ssa.Call); ok && isBuiltinCall(call, "len") {
+				v = strip(call.Call.Args[0])
+			}
+			m, ok := lastElementOf(v)
+			if !ok {
+				return nil, false
+			}
+			call, ok := strip(m).(*ssa.Call)
+			if !ok || !strings.HasPrefix(calleeName(&call.Call), "(*regexp.Regexp).FindStringSubmatch") || len(call.Call.Args) < 2 {
+				return nil, false
+			}
+			if !up.derives(p, call.Call.Args[1], map[ssa.Value]bool{}) {
+				return nil, false
+			}
+			return call, true
+		}
+		for _, b := range fn.Blocks {
+			iff, ok := b.Instrs[len(b.Instrs)-1].(*ssa.If)
+			if !ok {
+				continue
+			}
+			bo, ok := iff.Cond.(*ssa.BinOp)
+			if !ok || (bo.Op != token.EQL && bo.Op != token.NEQ) {
+				continue
+			}
+			for _, pr := range [][2]ssa.Value{{bo.X, bo.Y}, {bo.Y, bo.X}} {
+				g, ok := groupOf(pr[0])
+				if !ok {
+					continue
+				}
+				isEmpty, isSlash := false, false
+				if k, isC := constStr(pr[1]); isC {
+					isEmpty, isSlash = k == "", k == "/"
+				} else if n, isN := constInt(pr[1]); isN && n == 0 {
+					isEmpty = true
+				}
+				if !isEmpty && !isSlash {
+					continue
+				}
+				eq := b.Succs[0]
+				if bo.Op == token.NEQ {
+					eq = b.Succs[1]
+				}
+				tests = append(tests, test{g, isSlash, b, eq, iff})
+			}
+		}
+		for _, t := range tests {
+			if t.slash {
+				continue
+			}
+			paired := false
+			for _, u := range tests {
+				if u.slash && u.group == t.group && u.eqTo == t.eqTo {
+					paired = true
+				}
+			}
+			c.check(paired, name, "an empty remainder and the remainder \"/\" lead to the same decision", p.ipos(t.at),
+				"the test for the empty final group has a twin for \"/\" with the same target",
+				"the final group of the match on the path is tested for being empty here and no test of the same group for \"/\" leads to the same place: `/p` (remainder empty) and `/p/` (remainder \"/\") part at this point")
+		}
 	}
 }
